@@ -597,6 +597,8 @@ def _emit_templates(fn: Function) -> List[Tuple[ast.AST, Template, str]]:
 
 
 def run(repo: Repo, rep: Report, tier: str) -> None:
+    from sa.report import guarded as _guarded
+
     live = repo.import_closure(["generator.client_generator"])
     mods = [m for m in live if m.startswith(EMIT_MODULE_PREFIXES)]
     n_holes = 0
@@ -796,9 +798,9 @@ def run(repo: Repo, rep: Report, tier: str) -> None:
     rep.require(n_dumps >= 6, f"R15.5: only {n_dumps} json.dumps(<spec text>) literal makers found (floor 6)")
 
     # ---------------------------------------------------------------- R15.9 an enum default names the member that has the default's value
-    rule_enum_default_by_value(repo, rep, "R15.9")
+    _guarded(rep, rule_enum_default_by_value, repo, rep, "R15.9")
     # ---------------------------------------------------------------- R15.8 the line funnel is the identity
-    rule_writer_funnel_is_identity(repo, rep, "R15.8")
+    _guarded(rep, rule_writer_funnel_is_identity, repo, rep, "R15.8")
     # ---------------------------------------------------------------- R15.3 re-splitting of emitted code
     allowed_splitlines = {
         # (function, reason): assembling docstring/comment text, where every resulting line stays inside that docstring/comment
@@ -860,7 +862,7 @@ def run(repo: Repo, rep: Report, tier: str) -> None:
                                       f"generated code ({code_src}: `{recv[:40]}`) is re-split with str.splitlines(): it also splits at U+2028/U+2029/U+0085/FF/VT/FS-RS, which the "
                                       "Python tokenizer does not treat as line ends, so text inside a comment or string literal can become code", fn.loc(c))
     rep.count("R15.3:splitlines_sites", n_sl)
-    rule_scanner_stops_at_signature(repo, rep, "R15.7")
+    _guarded(rep, rule_scanner_stops_at_signature, repo, rep, "R15.7")
 
 
 def _sanitized_for(st: LexState, esc: Set[str], hole: ast.AST) -> Tuple[bool, str]:
